@@ -1039,6 +1039,20 @@ json.dump(out, sys.stdout)
             if r.target_id != t.id:
                 raise self.v('relation_map', '%s.relation_map(): Relation.target_id differs '
                              'from the mapped target' % what, {'cfg': ctx['cfg'], 'source': key})
+            # "the right ... defining lexicon": the installed lexicon itself, not a look-alike
+            lx = r.lexicon()
+            doc = self.m.docs.get(lx.specifier())
+            if doc is not None and lx.specifier() in self.m.installed:
+                if '_lexobjs' not in ctx:
+                    ctx['_lexobjs'] = wn.lexicons()
+                same = [x for x in ctx['_lexobjs'] if x.specifier() == lx.specifier()]
+                if (lx.label, lx.language, lx.email, lx.license) != (
+                        doc['label'], doc['language'], doc['email'], doc['license']) \
+                        or (len(same) == 1 and lx != same[0]):
+                    raise self.v('relation_map', '%s.relation_map(): Relation.lexicon() is not '
+                                 'the installed lexicon that defines the relation' % what,
+                                 {'cfg': ctx['cfg'], 'source': key, 'lexicon': lx.specifier(),
+                                  'observed_label': lx.label, 'installed_label': doc['label']})
         want = {canon([r['name'], r['source'], r['target'], r['lexicon'],
                        r['meta'].get('type')]) for r in rels}
         if got != want:
